@@ -33,6 +33,12 @@ Theorem C15_pav_block_values : forall (sv : list item -> Q) (l : list item) (bs 
 Proof. exact pav_block_values. Qed.
 Print Assumptions C15_pav_block_values.
 
+(* the library's own functionals satisfy that hypothesis (mean with a non-zero weight, any quantile level, max, min) *)
+Theorem C15_solvers_fix_singletons : forall (q y w : Q),
+  (~ w == 0 -> solve SMean [(y, w)] == y) /\ solve (SQuantile q) [(y, w)] == y /\ solve SMax [(y, w)] = y /\ solve SMin [(y, w)] = y.
+Proof. exact (fun q y w => conj (solve_single_mean y w) (conj (solve_single_quantile q y w) (conj (solve_single_max y w) (solve_single_min y w)))). Qed.
+Print Assumptions C15_solvers_fix_singletons.
+
 (* the fit is non-decreasing and has one value per input pair *)
 Theorem C15_pav_monotone : forall (sv : list item -> Q) (l : list item), nondecr (pav sv l) /\ length (pav sv l) = length l.
 Proof. exact (fun sv l => conj (pav_nondecr sv l) (pav_length sv l)). Qed.
@@ -49,6 +55,13 @@ Theorem C15_pav_ties_pooled : forall (sv : list item -> Q) (l : list triple),
   adj (fun p q : triple * Q => tf (fst p) == tf (fst q) -> snd p = snd q) (combine (tsort l) (pav sv (map titem (tsort l)))).
 Proof. exact tidy_ties_thm. Qed.
 Print Assumptions C15_pav_ties_pooled.
+
+(* the interpolating regression_func, evaluated at the k-th tidied forecast, returns the k-th fitted value (any solver):
+   this is what `regression_values = ir_func(unique_fcst_sorted)` reads off *)
+Theorem C15_regression_func_at_forecasts : forall (sv : list item -> Q) (l : list triple) (k : nat), (k < length l)%nat ->
+  interp (map tf (tsort l)) (pav sv (map titem (tsort l))) (tf (nth k (tsort l) (0, 0, 0))) = XFin (nth k (pav sv (map titem (tsort l))) 0).
+Proof. exact interp_at_forecasts. Qed.
+Print Assumptions C15_regression_func_at_forecasts.
 
 (* fcst_counts sums to the number of valid (NaN-free) pairs *)
 Theorem C15_counts_sum : forall (a : args) (r : fit), isotonic_fit_m a = Ok r ->
